@@ -1,5 +1,6 @@
 import WhVerif.Lemmas.C17Fold
 import WhVerif.Lemmas.C17Multi
+import WhVerif.Lemmas.C17Run
 /-!
 # C17 — haplotag followed by haplotagphase reproduces the phasing that tagged the reads
 
@@ -304,5 +305,265 @@ example : ((C17.run false {} "ACGTACGTAC".toList.toArray [⟨5, [2, 1], none, tr
 detection is restricted to the genotype's alleles) makes `compute_votes` raise `KeyError` — outside the premise
 "error-free reads" -/
 example : (computeVotes [⟨5, [2, 0], none, true⟩] [] [⟨40, 1, [⟨5, 1, 30⟩]⟩]).toOption = none := by decide
+
+/-! ## the composition haplotag → haplotagphase over the whole run (`Model/C17Run.lean`)
+
+`info` is the phased VCF `V` as `haplotag` sees it (`C10.PhaseInfo`: position ↦ phase set and the allele of each
+haplotype); the reads of the tagged BAM are `TaggedFrom info` (`Spec/C17Run.lean`): their HP/PS tags are what the C10
+model decides (`C10.tagDecision`; `C10.written_tags_sound` shows that every tagged alignment `C10.haplotag` writes
+carries such a decision) on an error-free read cloud lying in one phase set.  `runSample`/`runFile` are
+`run_haplotagphase` as coded (consensus after F19/F138, all loops and error exits). -/
+open WhVerif.C10 (PhaseInfo)
+
+/-- **haplotag_tags_are_truth.** `haplotag` (model C10) on an error-free cloud of haplotype `τ` inside the one phase set
+`P`: if it tags at all, it writes HP = `τ + 1` and PS = `P`. -/
+theorem haplotag_tags_are_truth {info : PhaseInfo} {τ : Nat} (hτ : τ < 2) {P : Int} {rvs : List RV}
+    (he : ErrorFree info τ rvs) (ho : OneSet info P rvs) {h q : Nat} {ps : Int}
+    (hd : C10.tagDecision 2 info rvs = .tagged h q ps) :
+    tagsOfDecision (.tagged h q ps) = { hp := some (τ + 1), pc := some q, ps := some P } := by
+  obtain ⟨rfl, rfl⟩ := decision_errorfree hτ he ho hd
+  rfl
+
+/-- **tagged_reads_consistent.** The premise of `votes_agree`/`consensus_reproduces` is what the composition delivers:
+reads tagged from `V` are `Consistent` with `V`'s call `a0|a1`, set `P`, at every position they cover (only the reads
+covering `pos` must stay inside one phase set). -/
+theorem tagged_reads_consistent {info : PhaseInfo} {pos : Nat} {P : Int} {a0 a1 : Nat}
+    (hV : info.lookup pos = some (P, [a0, a1])) {reads : List TRead}
+    (ht : ∀ r ∈ reads, voting r = true → (∃ v ∈ r.variants, v.pos = pos) → TaggedFrom info r) :
+    Consistent pos P a0 a1 reads := consistent_of_tagged hV ht
+
+/-- the three clauses of the property for the call at `pos` of one sample, given what `consensus` hands to the
+keep-mode writer (`phaseOut cs pos = none`: the writer leaves the call as it is in the input):
+* phased in `V` as `a0|a1` in set `P`, unphased heterozygous in the input, covered with positive quality by reads
+  tagged from `V` none of which leaves the phase set: written `a0|a1`, PS `P`;
+* already phased in the input with a phase set value: handed back unchanged; without one: not handed to the writer;
+* unphased and covered by no voting read: not handed to the writer. -/
+def Reproduces (info : PhaseInfo) (vars : List VarInfo) (reads : List TRead) (par : Params) (cs : List Cons) : Prop :=
+  ∀ pos vi, infoAt vars pos = some vi → (∀ w ∈ vars, w.pos = pos → w = vi) →
+    (∀ P x y a0 a1, x ≠ y → ((a0 = x ∧ a1 = y) ∨ (a0 = y ∧ a1 = x)) → info.lookup pos = some (P, [a0, a1]) →
+      vi.gt = [x, y] → vi.phase = none →
+      (∀ r ∈ reads, voting r = true → (∃ v ∈ r.variants, v.pos = pos) → TaggedFrom info r) →
+      0 < qualAt pos reads → par.gapThreshold ≤ 100 → par.onlyIndels = false →
+      phaseOut cs pos = some (P, a0, a1)) ∧
+    (∀ b a0 a1, vi.phase = some (b, [a0, a1]) → a0 ≠ a1 →
+      phaseOut cs pos = if b = 0 then none else some (b, a0, a1)) ∧
+    (vi.phase = none → covered pos reads = false → phaseOut cs pos = none)
+
+/-- **haplotag_then_haplotagphase_sample** (one sample, one chromosome, any number of variants, reads, phase sets):
+`compute_votes` + `consensus` as coded on reads tagged from `V` reproduce `V`. -/
+theorem haplotag_then_haplotagphase_sample (info : PhaseInfo) {vars : List VarInfo} {reads : List TRead}
+    {par : Params} {ref : Array Char} {cs : List Cons} (h : runSample par ref vars reads = .ok cs) :
+    Reproduces info vars reads par cs := by
+  unfold runSample at h
+  cases hv : computeVotes vars [] reads with
+  | error e => simp [hv] at h
+  | ok votes =>
+    simp only [hv, consensusNow] at h
+    cases hc : consensusVotes false par ref vars (votes.filter fun e => !isAlready vars e.1) with
+    | error e => simp [hc] at h
+    | ok cs0 =>
+      simp only [hc] at h
+      injection h with h
+      subst h
+      intro pos vi hinfo hu
+      have hal := isAlready_of_infoAt hinfo
+      refine ⟨?_, ?_, ?_⟩
+      · intro P x y a0 a1 hxy ha hV hgt hph ht hq hgap honly
+        have hcons := consistent_of_tagged hV ht
+        have hi : PosInv pos (P - 1) (keyOf x a0) 0 [] := ⟨fun _ => rfl, fun inner h => by simp [List.lookup] at h⟩
+        have hinv := computeVotes_inv_pair hxy ha hinfo hgt reads hcons hi hv
+        simp only [Nat.zero_add] at hinv
+        have hk : (keptPhases vars).find? (·.pos == pos) = none :=
+          keptPhases_none hu (fun b c d hp => by rw [hph] at hp; cases hp)
+        have hna : (fun p => !isAlready vars p) pos = true := by simp [hal, alreadyPhased, hph]
+        cases hl : votes.lookup pos with
+        | none => have := hinv.1 hl; omega
+        | some inner =>
+          have hshape := hinv.2 inner hl
+          have hl' : (votes.filter fun e => !isAlready vars e.1).lookup pos = some inner := by
+            rw [lookup_filter_key (fun p => !isAlready vars p) pos hna votes]; exact hl
+          obtain ⟨info', c, h1, h2, h3⟩ := find_consensusVotes hc hl'
+          rw [hinfo] at h1
+          injection h1 with h1
+          subst h1
+          rw [hshape, consensusAt_shape_pair par hgap honly ref vi hxy ha hgt hph (P - 1) hq false] at h2
+          injection h2 with h2
+          have hne : a0 ≠ a1 := by
+            rcases ha with ⟨rfl, rfl⟩ | ⟨rfl, rfl⟩
+            · exact hxy
+            · exact hxy.symm
+          unfold phaseOut
+          rw [List.find?_append, hk, Option.none_or, h3, ← h2]
+          simp [hne]
+      · intro b a0 a1 hph hne
+        have hya : (fun p => !isAlready vars p) pos = false := by simp [hal, alreadyPhased, hph]
+        have hl' := lookup_filter_key_none (fun p => !isAlready vars p) pos hya votes
+        have h0 := find_none_of_no_entry (consensusVotes_no_entry _ cs0 hc hl')
+        have hmem : vi ∈ vars := by
+          unfold infoAt at hinfo
+          exact List.mem_of_find?_eq_some hinfo
+        unfold phaseOut
+        rw [List.find?_append]
+        by_cases hb : b = 0
+        · have hk : (keptPhases vars).find? (·.pos == pos) = none :=
+            keptPhases_none hu (fun b' c d hp => by rw [hph] at hp; injection hp with hp; injection hp with hp _; omega)
+          rw [hk, Option.none_or, h0]
+          simp [hb]
+        · rw [keptPhases_some hmem (infoAt_pos hinfo) hu hph hb]
+          simp [hb, hne]
+      · intro hph hcov
+        have hk : (keptPhases vars).find? (·.pos == pos) = none :=
+          keptPhases_none hu (fun b c d hp => by rw [hph] at hp; cases hp)
+        have hl := computeVotes_uncovered reads [] votes hcov hv
+        have hna : (fun p => !isAlready vars p) pos = true := by simp [hal, alreadyPhased, hph]
+        have hl' : (votes.filter fun e => !isAlready vars e.1).lookup pos = none := by
+          rw [lookup_filter_key (fun p => !isAlready vars p) pos hna votes, hl]; rfl
+        have h0 := find_none_of_no_entry (consensusVotes_no_entry _ cs0 hc hl')
+        unfold phaseOut
+        rw [List.find?_append, hk, Option.none_or, h0]
+
+set_option linter.unusedSimpArgs false in
+/-- **haplotag_then_haplotagphase_reproduces** (the whole run: any number of chromosomes and samples, every option):
+if `run_haplotagphase` ends normally, then for every requested chromosome of the variant file and every sample of the
+VCF the consensus handed to the writer satisfies the three clauses (`Reproduces`) with respect to ANY phased VCF `V`
+(`info`) — the hypotheses about the reads (tagged from `V`, inside one phase set, positive quality) are per position
+inside `Reproduces` — and the written records of the chromosome are the keep-mode writer's (`C09.writeChromXF`) on
+these consensus lists; a chromosome not requested by `--chromosome` is written unchanged. -/
+theorem haplotag_then_haplotagphase_reproduces {opts : Opts} {samples bamSamples : List String} {chroms : List ChromIn}
+    {outs : List ChromOut} (hrun : runFile opts samples bamSamples chroms = .ok outs)
+    {c : ChromIn} (hc : c ∈ chroms) :
+    ∃ o ∈ outs, o.name = c.name ∧
+      if opts.chromosomes.isEmpty || opts.chromosomes.contains c.name then
+        o.records = C04.outRecords (C09.writeChromXF (writerCfg opts samples o.cons) none c.records) ∧
+        ∀ t ∈ c.tables, ∃ cs, (t.name, cs) ∈ o.cons ∧
+          ∀ info : PhaseInfo,
+            Reproduces info t.vars (readsFor opts.ignoreRG bamSamples t.name c.alns) opts.par cs
+      else o.records = c.records ∧ o.cons = [] := by
+  unfold runFile at hrun
+  split at hrun
+  · cases hrun
+  · split at hrun
+    · cases hrun
+    · obtain ⟨o, ho, hro⟩ := chromLoop_mem chroms outs hrun c hc
+      refine ⟨o, ho, ?_⟩
+      unfold runChrom at hro
+      cases href : c.ref with
+      | none => simp [href] at hro
+      | some ref =>
+        simp only [href] at hro
+        cases h1 : opts.chromosomes.isEmpty <;> cases h2 : opts.chromosomes.contains c.name <;>
+          simp only [h1, h2, Bool.not_true, Bool.not_false, Bool.and_false, Bool.and_true, Bool.false_and, Bool.true_and,
+            Bool.or_false, Bool.or_true, Bool.false_or, Bool.true_or, if_true, if_false, Bool.false_eq_true] at hro ⊢
+        case false.false =>
+          injection hro with hro
+          subst hro
+          exact ⟨rfl, rfl, rfl⟩
+        all_goals
+          cases hs : samplesLoop opts bamSamples c ref c.tables with
+          | error e => simp [hs] at hro
+          | ok cons =>
+            simp only [hs] at hro
+            injection hro with hro
+            subst hro
+            refine ⟨rfl, rfl, fun t ht => ?_⟩
+            obtain ⟨cs, h1, h2⟩ := samplesLoop_mem c.tables cons hs t ht
+            exact ⟨cs, h1, fun info => haplotag_then_haplotagphase_sample info h2⟩
+
+/-! ### non-vacuity: two phase sets, four reads, every clause
+
+`V` (`exV`): 10 `0|1` and 20 `1|0` in set 11, 30 `1|0` and 40 `0|1` in set 31.  The input of haplotagphase (`exVars`) has
+these four unphased, 25 (unphased in `V`), 50 already phased `0|1:77`, 55 already phased without a set value, 60 covered by
+no read.  Four error-free reads (two per set, one per haplotype), tagged by the C10 model (`tagRead`). -/
+def exV : PhaseInfo := [(10, (11, [0, 1])), (20, (11, [1, 0])), (30, (31, [1, 0])), (40, (31, [0, 1]))]
+def exVars : List VarInfo :=
+  [⟨10, [1, 0], none, true⟩, ⟨20, [1, 0], none, true⟩, ⟨25, [1, 0], none, true⟩, ⟨30, [1, 0], none, true⟩,
+   ⟨40, [1, 0], none, true⟩, ⟨50, [1, 0], some (77, [0, 1]), true⟩, ⟨55, [1, 0], some (0, [1, 0]), true⟩,
+   ⟨60, [1, 0], none, true⟩]
+def exFull : List (List RV) :=
+  [[⟨10, 0, 30⟩, ⟨20, 1, 30⟩, ⟨25, 1, 30⟩], [⟨10, 1, 30⟩, ⟨20, 0, 30⟩],
+   [⟨30, 1, 30⟩, ⟨40, 0, 30⟩], [⟨30, 0, 30⟩, ⟨40, 1, 30⟩, ⟨50, 1, 30⟩, ⟨55, 0, 30⟩]]
+def exAlns : List (C10.Aln Payload) := exFull.map (tagRead exV "s")
+def exReads : List TRead := exAlns.map treadOf
+
+/-- the tags the C10 model writes: HP 1 / 2, PS 11 / 31 -/
+example : exReads.map (fun r => (r.ps, r.hp)) = [(11, 1), (11, 2), (31, 1), (31, 2)] := by decide
+
+/-- the run reproduces `V` (10, 20, 30, 40), phases 25 from the reads (outside the statement), leaves 50 as it is, hands
+nothing to the writer for 55 (phased, no set value) and 60 (uncovered) -/
+example : (runSample {} "ACGTACGTAC".toList.toArray exVars exReads).toOption.map
+      (fun cs => exVars.map fun v => phaseOut cs v.pos) =
+    some [some (11, 0, 1), some (11, 1, 0), some (11, 1, 0), some (31, 1, 0), some (31, 0, 1), some (77, 0, 1), none, none] := by
+  decide
+
+/-- the hypotheses of `Reproduces` hold for these reads: each is `TaggedFrom exV` -/
+example : ∀ r ∈ exReads, voting r = true → TaggedFrom exV r := by
+  intro r hr hv
+  simp only [exReads, exAlns, exFull, List.map_cons, List.map_nil, List.mem_cons, List.not_mem_nil, or_false] at hr
+  rcases hr with rfl | rfl | rfl | rfl
+  · exact tagRead_taggedFrom (τ := 0) (P := 11) (by decide) "s" (errorFree_of_B (by decide)) (oneSet_of_B (by decide)) hv
+  · exact tagRead_taggedFrom (τ := 1) (P := 11) (by decide) "s" (errorFree_of_B (by decide)) (oneSet_of_B (by decide)) hv
+  · exact tagRead_taggedFrom (τ := 0) (P := 31) (by decide) "s" (errorFree_of_B (by decide)) (oneSet_of_B (by decide)) hv
+  · exact tagRead_taggedFrom (τ := 1) (P := 31) (by decide) "s" (errorFree_of_B (by decide)) (oneSet_of_B (by decide)) hv
+
+example : qualAt 10 exReads = 60 ∧ qualAt 40 exReads = 60 ∧ covered 60 exReads = false := by decide
+
+/-- the whole run on two chromosomes (the second not requested) with the writer: the record at 10 comes back `0|1:11`,
+the record at 50 (`0|1:77`) unchanged, the unrequested chromosome unchanged -/
+def exRec (pos : Nat) (c : C04.Call) : C04.Record := ⟨"chr1", pos, "A", ["C"], ["GT", "PS"], [("s", c)]⟩
+def exChroms : List ChromIn :=
+  [⟨"chr1", some "ACGTACGTAC".toList.toArray, true, [⟨"s", exVars⟩], exAlns,
+     [exRec 10 ⟨some [some 0, some 1], false, []⟩, exRec 50 ⟨some [some 0, some 1], true, [("PS", .int 77)]⟩]⟩,
+   ⟨"chr2", some #[], false, [⟨"s", []⟩], [], [exRec 7 ⟨some [some 0, some 1], false, []⟩]⟩]
+
+example : (runFile { chromosomes := ["chr1"] } ["s"] ["s"] exChroms).toOption.map (·.map (·.records)) =
+    some [[exRec 10 ⟨some [some 0, some 1], true, [("PS", .int 11)]⟩,
+           exRec 50 ⟨some [some 0, some 1], true, [("PS", .int 77)]⟩],
+          [exRec 7 ⟨some [some 0, some 1], false, []⟩]] := by decide
+
+/-- error exits: a requested chromosome the BAM does not know; `--ignore-read-groups` with two samples -/
+example : (runFile {} ["s"] ["s"] exChroms).toOption.isNone = true ∧
+    (match runFile { ignoreRG := true } ["s", "t"] ["s"] exChroms with
+      | .error e => decide (e = .needSampleOption) | .ok _ => false) = true ∧
+    (match runFile {} ["s"] ["s"] exChroms with
+      | .error e => decide (e = .chromNotInBam "chr2") | .ok _ => false) = true := by decide
+
+/-- **restricted_genotype_is_own_genotype.** Every variant that reaches re-alignment in the reader is paired with the
+genotype of its OWN record (same index of the unfiltered table), whatever records (symbolic ALT alleles) are skipped in
+between, and every non-symbolic variant of the table reaches re-alignment with its own genotype. -/
+theorem restricted_genotype_is_own_genotype (variants : List TabVar) (genotypes : List (List Nat)) :
+    (∀ p ∈ realignPairs variants genotypes, p.1.symbolic = false ∧
+      ∃ i : Nat, variants[i]? = some p.1 ∧ genotypes[i]? = some p.2) ∧
+    (∀ (i : Nat) v g, variants[i]? = some v → genotypes[i]? = some g → v.symbolic = false →
+      (v, g) ∈ realignPairs variants genotypes) := by
+  constructor
+  · intro p hp
+    simp only [realignPairs, List.mem_filter, Bool.not_eq_true'] at hp
+    obtain ⟨hm, hs⟩ := hp
+    obtain ⟨i, hi⟩ := List.getElem?_of_mem hm
+    exact ⟨hs, i, (List.getElem?_zip_eq_some.1 hi)⟩
+  · intro i v g hv hg hs
+    simp only [realignPairs, List.mem_filter, Bool.not_eq_true']
+    exact ⟨List.mem_of_getElem? (List.getElem?_zip_eq_some.2 ⟨hv, hg⟩), hs⟩
+
+/-- witness for the filter-one-list change (seed C17-h): `<DEL>` called `1/1` in front of a heterozygous SNV — as coded the
+SNV is re-aligned under its own `0/1`, with the variant list filtered alone it inherits `1/1` -/
+example : realignPairs [⟨10, true⟩, ⟨20, false⟩] [[1, 1], [1, 0]] = [(⟨20, false⟩, [1, 0])] ∧
+    realignPairsShifted [⟨10, true⟩, ⟨20, false⟩] [[1, 1], [1, 0]] = [(⟨20, false⟩, [1, 1])] := by decide
+
+/-- **run_error_exits.** The error exits of `run_haplotagphase` in the order of the code: no `--reference`;
+`--ignore-read-groups` on a multi-sample VCF; then, chromosome by chromosome, a chromosome missing from the FASTA stops
+the run even when `--chromosome` does not request it. -/
+theorem run_error_exits (opts : Opts) (samples bamSamples : List String) (c : ChromIn) (rest : List ChromIn) :
+    (opts.reference = false → runFile opts samples bamSamples (c :: rest) = .error .referenceMissing) ∧
+    (opts.reference = true → opts.ignoreRG = true → 1 < samples.length →
+      runFile opts samples bamSamples (c :: rest) = .error .needSampleOption) ∧
+    (opts.reference = true → (opts.ignoreRG = true → samples.length ≤ 1) → c.ref = none →
+      runFile opts samples bamSamples (c :: rest) = .error (.chromNotInFasta c.name)) := by
+  refine ⟨fun h => by simp [runFile, h], fun h1 h2 h3 => by simp [runFile, h1, h2, h3], fun h1 h2 h3 => ?_⟩
+  have : (opts.ignoreRG && decide (samples.length > 1)) = false := by
+    cases hi : opts.ignoreRG with
+    | false => rfl
+    | true => have := h2 hi; simp; omega
+  simp [runFile, h1, this, chromLoop, runChrom, h3]
 
 end WhVerif.Props.C17
